@@ -4,7 +4,7 @@
 FIX_COMMITS = [
     "02a02b1", "c32131a", "324bd77", "876de36", "e2492f3", "e522aa8", "02b45be", "2a6ea78", "7fbeea5", "b9a009d",
     "caa585b", "a0bae72", "49c1276", "a9a220e", "3b6199f", "d3ca28d", "e11250e", "3ac0c81", "b80de6a", "773425f",
-    "a468da5", "3e9bf5d", "abf25e6", "2859361", "650ac10", "2493939", "3e31ca3",
+    "a468da5", "3e9bf5d", "abf25e6", "2859361", "650ac10", "2493939", "3e31ca3", "64111f6",
 ]
 
 NOT_APPLICABLE = {
@@ -160,7 +160,7 @@ PROPS = {
              "R-BLOCK-TABLES(1,2), R-RESOLVER-DETAILS, R-SCOPED-PENDING, R-RESOLVE-CLEARS.",
              "firing semantics.",
              "table agreement + container scoping analysis"),
-    "C20": P([LCG, SAVESIB, SCOPED, WALK, SPFLAG, CLEARCOH, MODEF, BLOCKT, DETAILS, ("misc", "flag_reset", {}), ("misc", "dead_after_sink", {}), CLEARS],
+    "C20": P([("misc", "if_chain", {}), LCG, SAVESIB, SCOPED, WALK, SPFLAG, CLEARCOH, MODEF, BLOCKT, DETAILS, ("misc", "flag_reset", {}), ("misc", "dead_after_sink", {}), CLEARS],
              "necessary: branch tables agree, target id arithmetic, flag protocol (set/reset), flag reset inside guard, no After code on the final end",
              "R-BLOCK-TABLES(1,3), R-RESOLVER-DETAILS, R-FLAG-RESET, R-DEAD-AFTER-SINK, R-RESOLVE-CLEARS.",
              "exactly-once at run time.",
@@ -190,7 +190,7 @@ PROPS = {
              "R-SKIP-LOOP, R-COUPLED-STATE, R-ITER-INDEX.",
              "exactly-once visiting over all skip lists.",
              "loop-exit condition analysis + path enumeration + MIR index sites"),
-    "C26": P([("component", "section_pairing", {}), ITCFG, FULLIT, SIB, ("iters", "coupled_state", {}), ("mutators", "who_may_call", {})],
+    "C26": P([("iters", "comp_next_fallthrough", {}), ("component", "section_pairing", {}), ITCFG, FULLIT, SIB, ("iters", "coupled_state", {}), ("mutators", "who_may_call", {})],
              "ModuleIterator and ComponentIterator perform the same operation on the same LocalFunction API for every trait method; module cursor changes rebuild the module sub-iterator from metadata and skip list",
              "R-SIBLING(instrumenter), R-COUPLED-STATE, R-WHOMAYCALL.",
              "visit-sequence equality over all components and skip maps.",
